@@ -39,6 +39,8 @@ type Program struct {
 	fnByDecl                  map[*ast.FuncDecl]*ssa.Function
 	// per-program memo of derived facts (one goroutine analyses one Program, so no locking)
 	memoRoles       *roles
+	memoIndexFacts  *indexFacts
+	memoHelperFacts *helperFacts
 	memoNumRoles    *numRoles
 	memoLitHelpers  map[string]*ssa.Function
 	memoArithParams map[*ssa.Parameter]bool
